@@ -37,12 +37,14 @@ inline Seg await(int n) { return Seg{true, Bytes(), n}; }
 
 struct ReqSpec {
   Bytes master;        // QQ ZZ PB SB NN D..
-  int kind = 0;        // 0 waited (harness owned), 1 self-deleting fire-and-forget, 2 the real PollRequest on a chained message
+  int kind = 0;        // 0 waited (harness owned), 1 self-deleting fire-and-forget, 2 the real PollRequest on a chained message,
+                       // 3 the real ScanRequest over the slaves 08 and 15 (master = its first telegram; see extraResponders)
   int restarts = 0;    // notify() asks for a restart this many times
   int resubmits = 0;   // waiter re-submits after an error result this many times (sendAndWait emulation)
   bool late = false;   // not enqueued at start: offered as ENQUEUE alternative at every read
   bool external = false;  // submitted by a client thread of the harness (schedmc), not by the world
   Script responder;    // behaviour of the addressed participant after ebusd won arbitration
+  std::vector<std::pair<uint8_t, Script>> extraResponders;  // further addresses this request talks to after a restart (scan)
 };
 struct AnswerSpec {
   int src;  // -1 = any (SYN)
